@@ -7,6 +7,7 @@ import RarenaVerif.Model.Core
 import RarenaVerif.Model.Layout
 import RarenaVerif.Model.Handle
 import RarenaVerif.Model.Bytes
+import RarenaVerif.Model.File
 
 open Rarena
 
@@ -109,6 +110,87 @@ def bufErrStr : BufErr → String
   | .insufficient => "InsufficientBuffer" | .incomplete => "IncompleteBuffer"
   | .varint => "Varint" | .panic => "panic"
 
+
+def fileStr (fs : FileSys) : String :=
+  match fs with
+  | none => "fh=none flen=none"
+  | some f => s!"fh={hex16 (fnv1a f)} flen={f.size}"
+
+def ioStr : IoKind → String
+  | .notFound => "NotFound" | .alreadyExists => "AlreadyExists" | .invalidInput => "InvalidInput"
+  | .invalidData => "InvalidData" | .permissionDenied => "PermissionDenied"
+
+def kindStr : Kind → String
+  | .none => "none" | .opt => "opt" | .pess => "pess"
+
+def splitmix (seed : UInt64) (n : Nat) : Mem := Id.run do
+  let mut st := seed
+  let mut out : Mem := Array.mkEmpty n
+  for _ in [0:n] do
+    st := st + 0x9E3779B97F4A7C15
+    let mut z := st
+    z := (z ^^^ (z >>> 30)) * 0xBF58476D1CE4E5B9
+    z := (z ^^^ (z >>> 27)) * 0x94D049BB133111EB
+    z := z ^^^ (z >>> 31)
+    out := out.push z.toUInt8
+  return out
+
+def parseMode : String → Option OpenMode
+  | "mut" => some .mut | "copy" => some .copy | "ro" => some .ro | "copy_ro" => some .copyRo | _ => none
+
+/-- file operations that are legal while the case is closed -/
+def closedStep (x : Sess) (toks : List String) : Step :=
+  match toks with
+  | ["filehash"] => { sess := some x, out := s!"r=ok {fileStr x.file}" }
+  | ["mutate_file", i, v] =>
+    match i.toNat?, v.toNat?, x.fs with
+    | some i, some v, some f =>
+      if i < f.size ∧ v < 256 then
+        let x := { x with fs := some (f.update i (i + 1) (fun _ => UInt8.ofNat v)) }
+        { sess := some x, out := s!"r=ok {fileStr x.fs}" }
+      else { sess := some x, out := "bad-op" }
+    | _, _, _ => { sess := some x, out := "bad-op" }
+  | ["truncate_file", n] =>
+    match n.toNat?, x.fs with
+    | some n, some f =>
+      let f' := if n ≤ f.size then f.extract 0 n else extendTo f n
+      let x := { x with fs := some f' }
+      { sess := some x, out := s!"r=ok {fileStr x.fs}" }
+    | _, _ => { sess := some x, out := "bad-op" }
+  | ["random_file", seed, n] =>
+    match seed.toNat?, n.toNat? with
+    | some seed, some n =>
+      let x := { x with fs := some (splitmix (UInt64.ofNat seed) n) }
+      { sess := some x, out := s!"r=ok {fileStr x.fs}" }
+    | _, _ => { sess := some x, out := "bad-op" }
+  | ["delete_file"] => { sess := some { x with fs := none }, out := "r=ok" }
+  | "reopen" :: mode :: rest =>
+    match parseMode mode, kv rest "cap", kvNat rest "magic", (kv rest "freelist").bind parseKind,
+          kvNat rest "create", kv rest "flavour", kvNat rest "reserved", kvNat rest "minseg" with
+    | some m, some capS, some magic, some k, some create, some fl, some reserved, some minseg =>
+      let cap : Option (Option Nat) :=
+        if capS == "same" then some (some x.opts.cap) else if capS == "none" then some none else capS.toNat?.map some
+      match cap with
+      | none => { sess := some x, out := "bad-op" }
+      | some cap =>
+        let oo : OpenOpts := { sync := fl == "sync", kind := k, reserved := reserved, cap := cap, minSeg := minseg,
+                               retries := x.opts.retries, magic := magic, create := create == 1, createNew := false }
+        match openFile m oo x.fs with
+        | (.error e, fs') =>
+          let x := { x with fs := fs' }
+          { sess := some x, out := s!"r=io:{ioStr e} {fileStr fs'}" }
+        | (.ok r, fs') =>
+          let opts : Opts := { sync := oo.sync, kind := r.cfg.kind, unify := true, file := true, anon := false,
+                               reserved := reserved, cap := x.opts.cap, minSeg := minseg, retries := x.opts.retries,
+                               magic := magic }
+          let x := { x with opts := opts, cfg := r.cfg, st := r.st, handles := [], arenas := [0], refs := 1,
+                            fs := fs', mapping := r.mapping, closed := false, removeOnDrop := false }
+          { sess := some x,
+            out := s!"r=ok doff={r.cfg.dataOffset} ro={if r.cfg.ro then 1 else 0} fk={kindStr r.cfg.kind} mv={magic} {fileStr x.file} {stateStr x}" }
+    | _, _, _, _, _, _, _, _ => { sess := some x, out := "bad-op" }
+  | ["close"] | ["flush"] | ["remove_on_drop", _] => { sess := some x, out := "bad-op" }
+  | _ => { sess := some x, out := "r=closed" }
+
 /-- the typed allocations are in bounds for the model when the type is a valid one of the table -/
 def step (x : Sess) (toks : List String) : Step :=
   let fuel := x.fuel
@@ -178,6 +260,19 @@ def step (x : Sess) (toks : List String) : Step :=
           | .error f => failed f
           | .ok (ret, st) => simple { x' with st := st } s!"r=ok ret={if ret then 1 else 0}"
     | none => { sess := some x, out := "bad-op" }
+  | ["close"] =>
+    if !x.opts.file then { sess := some x, out := "bad-op" }
+    else
+      let fs := if x.removeOnDrop then none else x.file
+      let x := { x with fs := fs, handles := [], arenas := [], closed := true }
+      { sess := some x, out := s!"r=ok {fileStr x.fs}" }
+  | ["flush"] => simple x "r=ok"
+  | ["filehash"] => { sess := some x, out := s!"r=ok {fileStr x.file}" }
+  | ["remove_on_drop", b] =>
+    if !x.opts.file then { sess := some x, out := "bad-op" }
+    else simple { x with removeOnDrop := b == "1" } "r=ok"
+  | "reopen" :: _ | ["mutate_file", _, _] | ["truncate_file", _] | ["random_file", _, _] | ["delete_file"] =>
+    { sess := some x, out := "bad-op" }
   | ["discard_freelist"] =>
     match discardFreelist c x.st fuel with
     | .error f => failed f
@@ -254,8 +349,10 @@ def step (x : Sess) (toks : List String) : Step :=
   | ["wres", b] =>
     match b.toNat? with
     | some b =>
-      let st := { x.st with mem := x.st.mem.fill 0 c.reserved (UInt8.ofNat b) }
-      simple { x with st := st } "r=ok"
+      if c.ro ∧ c.reserved ≠ 0 then simple x "r=panic"
+      else
+        let st := { x.st with mem := x.st.mem.fill 0 c.reserved (UInt8.ofNat b) }
+        simple { x with st := st } "r=ok"
     | none => { sess := some x, out := "bad-op" }
   -- buffer operations
   | ["put", h, ty, ord, v] =>
@@ -362,7 +459,7 @@ partial def loop (h : IO.FS.Stream) (out : IO.FS.Stream) (sess : Option Sess) : 
     match sess with
     | none => out.putStrLn "r=nocase"; loop h out none
     | some x =>
-      let r := step x toks
+      let r := if x.closed then closedStep x toks else step x toks
       out.putStrLn r.out
       loop h out r.sess
 
